@@ -58,6 +58,7 @@ def run(repo, rep, tier):
     rep.decided.append("D3 Easter and Pesach equal the published recipes")
     rep.undecided = ["equivalence of the published recipes with the tabular Computus / Hebrew calendar (trusted)", "month lengths 29/30 and year lengths 354/355", "bijection on days / epoch 16 July 622"]
     recipes(repo, rep)
+    moslem_carry(repo, rep)
     stale_param(repo, rep)
     century_ctrl(repo, rep)
     thresh_gap(repo, rep)
@@ -228,6 +229,81 @@ def md(x, n):
 def fr(a, b):
     from fractions import Fraction as F_
     return T.num(F_(a, b))
+
+
+def moslem_carry(repo, rep):
+    """moslem2gregorian: the day count J and the year X before the year-end carry equal Meeus' recipe, and the
+    carry is the one of a Julian-calendar year (366 days iff X % 4 == 0): decided by substituting symbols
+    for J and X and evaluating the remaining decision table exactly on every residue of X mod 4 and the
+    orderings of J against 365 / 366."""
+    from ..rules import eval_exact, NotEvaluable, find_calls, lift_phi
+    from ..poly import Algebra
+    from fractions import Fraction as F_
+    N = T.num
+    q = "Epoch.moslem2gregorian"
+    site = "Epoch." + q
+    fn = repo.func(MOD, q)
+    an = [a.arg for a in fn.args.args]
+    t = ret_term(repo, MOD, q, arg_terms={an[0]: T.sym("NUM_Y"), an[1]: T.sym("NUM_M"), an[2]: T.sym("NUM_D")})
+    H, M, D = fl(T.sym("NUM_Y")), fl(T.sym("NUM_M")), fl(T.sym("NUM_D"))
+    Nn = T.add(D, fl(T.add(T.mul(N(F_("29.5001")), T.add(M, N(-1))), N(F_("0.99")))))
+    Q = fl(T.mul(fr(1, 30), H)); R = md(H, 30); A = fl(T.mul(fr(1, 30), T.add(T.mul(N(11), R), N(3))))
+    W = T.add(T.mul(N(404), Q), T.mul(N(354), R), N(208), A)
+    Q1 = fl(T.mul(fr(1, 1461), W)); Q2 = md(W, 1461)
+    G = T.add(N(621), T.mul(N(4), fl(T.add(T.mul(N(7), Q), Q1))))
+    K = fl(T.mul(T.num(1 / F_("365.2422")), Q2)); E = fl(T.mul(N(F_("365.2422")), K))
+    J0 = T.add(Q2, T.neg(E), Nn, N(-1)); X0 = T.add(G, K)
+    calls = find_calls(t, "Epoch.Epoch.doy2date")
+    if len(calls) != 1 or len(calls[0]) < 4:
+        rep.inconcl("R-RECIPE", site, "expected one doy2date(x, j) call on the pre-Gregorian path")
+        return
+    xs, js = calls[0][2], calls[0][3]
+    sub = {J0: T.sym("J"), X0: T.sym("X")}
+    pres = set(T.walk(("bag", xs, js)))
+    if J0 not in pres or X0 not in pres:
+        rep.violation("R-RECIPE", site, "moslem-precarry", "Moslem -> civil: the day-of-year J = Q2 - E + N - 1 and year X = G + K before the year-end carry "
+                      "are not Meeus' (ch. 9) expressions", obligation=True)
+        return
+
+    def rel(t_, base, sym_):
+        """phi leaves of the form base + const are rewritten to sym + const"""
+        if t_[0] == "phi":
+            return T.phi(T.subst(t_[1], sub), rel(t_[2], base, sym_), rel(t_[3], base, sym_))
+        try:
+            r_ = Algebra().rat(T.sub(t_, base))
+            if r_.n.is_const() and r_.d.is_const():
+                return T.add(sym_, T.num(r_.n.const_value() / r_.d.const_value()))
+        except Exception:
+            pass
+        return T.subst(t_, sub)
+    xs, js = rel(lift_phi(xs), X0, T.sym("X")), rel(lift_phi(js), J0, T.sym("J"))
+    bad = None
+    n = 0
+    for r in range(4):
+        for j in (1, 200, 365, 366, 367, 400, 731):
+            xv = 1000 + r if j != 731 else 1700 + r     # centuries too: a Julian year is leap whenever X % 4 == 0
+            for xv_ in (xv, 1700 + r if r == 0 else xv):
+                env = {T.sym("J"): F_(j), T.sym("X"): F_(xv_)}
+                ylen = 366 if xv_ % 4 == 0 else 365
+                want = (xv_ + 1, j - ylen) if j > ylen else (xv_, j)
+                try:
+                    got = (eval_exact(xs, env), eval_exact(js, env))
+                except NotEvaluable as e:
+                    bad = ("the year-end carry involves %s, which is not a function of (J, X mod 4): the intermediate year X is a Julian-calendar "
+                           "year (366 days iff X %% 4 == 0); a Gregorian leap rule gives a wrong day for X = 1700, 1800, 1900, 2100, ..." % e)
+                    break
+                n += 1
+                if got != want:
+                    bad = "the year-end carry maps (X=%d, J=%d) to (%s, %s); a Julian year of %d days requires (%d, %d)" % (xv_, j, got[0], got[1], ylen, want[0], want[1])
+                    break
+            if bad:
+                break
+        if bad:
+            break
+    if bad:
+        rep.violation("R-RECIPE", site, "moslem-carry", "Moslem -> civil: " + bad, obligation=True)
+    else:
+        rep.ok("R-RECIPE", site, "J, X equal Meeus ch. 9; year-end carry is that of a Julian year on all %d cases of (J vs 365/366, X mod 4)" % n, obligation=True)
 
 
 def recipes(repo, rep):
